@@ -23,6 +23,9 @@ theorem recorder_config_wiring :
     recorderConfigFields = "MinSecs:thermalRecorderConfig.MinSecs;MaxSecs:thermalRecorderConfig.MaxSecs;PreviewSecs:thermalRecorderConfig.PreviewSecs;Window:*w;ConstantRecorder:thermalRecorderConfig.ConstantRecorder" ∧
     recorderConfigValidate = "conf.MaxSecs < conf.MinSecs" := ⟨rfl, rfl, rfl⟩
 
+/-- C09/C15: a camera reset ends the recording in progress and then restarts the detector unconditionally -/
+theorem processor_reset_body : processorResetBody = "mp.stopRecording();mp.motionDetector.Reset(camera)" := rfl
+
 /-- C04: the window is consulted in `canStartWriting`, the run counter is compared with trigger-frames -/
 theorem gates_expr : windowGate = "!mp.window.Active()" ∧ triggerTest = "mp.triggered < mp.triggerFrames" := by decide
 
